@@ -62,6 +62,7 @@ FUNCS = [  # (lean name, file, class, method, translator key, lean type)
     ("registry", "statemachine/callbacks.py", None, "registry", "registry", "R.RegScript"),
     ("decl", "statemachine/events.py", None, "decl", "decl", "D.DeclScript"),
     ("diagram", "statemachine/contrib/diagram.py", None, "diagram", "diagram", "G.DiagramScript"),
+    ("engBase", "statemachine/engines/base.py", None, "eng", "eng", "E.EngScript"),
 ]
 ASYNC_DEF = {"activateAsync", "triggerAsync", "processAsync", "wrapperDunder", "execAsyncCall", "execAsyncAll"}
 
@@ -1863,6 +1864,68 @@ def tr_diagram(repo):
             + f'],\n  initialNode := "{ini}", initialEdge := ("{m.group(1)}", "{m.group(2)}") }}')
 
 
+# ----------------------------------------------------------------------------------------- engines/base.py, event_data.py
+
+def tr_eng(repo):
+    base, sy, asy, ed = ("statemachine/engines/base.py", "statemachine/engines/sync.py", "statemachine/engines/async_.py",
+                         "statemachine/event_data.py")
+    fn = _plain(method(repo, base, "BaseEngine", "__init__"))
+    if [a.arg for a in fn.args.args] != ["self", "sm", "rtc"]:
+        raise Untranslatable("BaseEngine.__init__: parameters")
+    init = _stmts(fn, {"self.sm = proxy(sm)": ".proxyMachine", "self._external_queue = deque()": ".newQueue",
+                       "self._sentinel = object()": ".newSentinel", "self._rtc = rtc": ".fieldRtc",
+                       "self._processing = Lock()": ".newLock", "self._activation = None": ".noActivation"},
+                  "BaseEngine.__init__")
+    # no class-level attributes on the engine classes (a lock or a queue shared by all machines)
+    for rel, cls in ((base, "BaseEngine"), (sy, "SyncEngine"), (asy, "AsyncEngine")):
+        tree = ast.parse(open(os.path.join(repo, rel)).read())
+        for c in tree.body:
+            if isinstance(c, ast.ClassDef) and c.name == cls:
+                for x in c.body:
+                    if isinstance(x, (ast.Assign, ast.AnnAssign)):
+                        raise Untranslatable(f"{cls}: class-level attribute at line {x.lineno}: {ast.unparse(x)!r}")
+    put = _stmts(method(repo, base, "BaseEngine", "put"), {"self._external_queue.append(trigger_data)": ".appendRight"},
+                 "BaseEngine.put")
+    it = _stmts(method(repo, base, "BaseEngine", "_initial_transition"),
+                {"transition = Transition(State(), self.sm._get_initial_state(), event='__initial__')":
+                     ".anonymousSourceToInitialState",
+                 "transition._specs.clear()": ".clearSpecs", "return transition": ".ret"}, "_initial_transition")
+    A = {"super().start()": ".superStart", "self.activate_initial_state()": ".activate",
+         "return self.processing_loop()": ".retProcessingLoop false",
+         "return await self.processing_loop()": ".retProcessingLoop true"}
+    sstart = _stmts(method(repo, sy, "SyncEngine", "start"), A, "SyncEngine.start")
+    sact = _stmts(method(repo, sy, "SyncEngine", "activate_initial_state"), A, "SyncEngine.activate_initial_state")
+    fn = method(repo, asy, "AsyncEngine", "activate_initial_state")
+    if not isinstance(fn, ast.AsyncFunctionDef):
+        raise Untranslatable("AsyncEngine.activate_initial_state is not `async def`")
+    aact = _stmts(fn, A, "AsyncEngine.activate_initial_state")
+    tree = ast.parse(open(os.path.join(repo, asy)).read())
+    own_start = any(isinstance(c, ast.ClassDef) and c.name == "AsyncEngine"
+                    and any(isinstance(f, (ast.FunctionDef, ast.AsyncFunctionDef)) and f.name in ("start", "put")
+                            for f in c.body) for c in tree.body)
+
+    def assigns(fn, what, pat=r"^self\.(\w+) = (.+)$"):
+        out = []
+        for x in _body(fn):
+            m = re.match(pat, ast.unparse(x))
+            if not m:
+                raise Untranslatable(f"{what}: statement at line {x.lineno}: {ast.unparse(x)!r}")
+            out.append(f'⟨"{m.group(1)}", "{m.group(2)}"⟩')
+        return "[" + ", ".join(out) + "]"
+    tp = assigns(method(repo, ed, "TriggerData", "__post_init__"), "TriggerData.__post_init__")
+    ep = assigns(method(repo, ed, "EventData", "__post_init__"), "EventData.__post_init__")
+    fn = method(repo, ed, "EventData", "extended_kwargs")
+    body = _body(fn)
+    if not body or ast.unparse(body[0]) != "kwargs = self.trigger_data.kwargs.copy()" or ast.unparse(body[-1]) != "return kwargs":
+        raise Untranslatable("extended_kwargs: not `kwargs = self.trigger_data.kwargs.copy()` … `return kwargs`")
+    fn2 = copy.deepcopy(fn)
+    fn2.body = body[1:-1]
+    ek = assigns(fn2, "extended_kwargs", pat=r"^kwargs\['(\w+)'\] = (.+)$")
+    return ("{\n  baseInit := " + init + ", put := " + put + ",\n  initialTransition := " + it + ",\n  syncStart := " + sstart
+            + ", syncActivate := " + sact + ", asyncActivate := " + aact + f", asyncHasOwnStart := {B(own_start)},\n"
+            + "  triggerPostInit := " + tp + ",\n  eventPostInit := " + ep + ",\n  extendedKwargs := " + ek + " }")
+
+
 TRANSLATORS = {"eventcall": tr_eventcall, "send": tr_send, "start": tr_start, "injected": tr_injected,
                "activate": tr_activate, "trigger": tr_trigger, "process": tr_process, "wrapper": tr_wrapper,
                "executor": tr_executor, "bind": tr_bind,
@@ -1908,6 +1971,9 @@ def translate(repo):
                 continue
             if key == "diagram":
                 res[name] = (ty, tr_diagram(repo), None)
+                continue
+            if key == "eng":
+                res[name] = (ty, tr_eng(repo), None)
                 continue
             if key == "injected":
                 if [ast.unparse(d) for d in fn.decorator_list] != ["property"]:
@@ -2040,6 +2106,12 @@ SELFTEST_EDITS = [
     ("statemachine/contrib/diagram.py", "        graph.add_edge(self._initial_edge())\n", ""),
     ("statemachine/contrib/diagram.py", "            label=f\"{transition.event}{cond}\",", "            label=f\"{transition.event}\","),
     ("statemachine/contrib/diagram.py", "            if transition.internal\n        )", "        )"),
+    ("statemachine/engines/base.py", "class BaseEngine:\n", "class BaseEngine:\n    _processing = Lock()\n"),
+    ("statemachine/engines/base.py", "        self._external_queue.append(trigger_data)", "        self._external_queue.appendleft(trigger_data)"),
+    ("statemachine/engines/base.py", "        transition._specs.clear()\n", ""),
+    ("statemachine/event_data.py", "        kwargs[\"source\"] = self.source", "        kwargs[\"source\"] = self.state"),
+    ("statemachine/event_data.py", "        self.state = self.transition.source", "        self.state = self.transition.target"),
+    ("statemachine/engines/sync.py", "        super().start()\n        self.activate_initial_state()", "        super().start()"),
 ]
 
 
@@ -2081,6 +2153,7 @@ import SMV.Src.IRStore
 import SMV.Src.IRReg
 import SMV.Src.IRDecl
 import SMV.Src.IRDiagram
+import SMV.Src.IREng
 /-! GENERATED by `harness/srcgen.py --write-expected` from the tree the theorems of `SMV/Src/Tie.lean` were
 proved for. Do not edit by hand. -/
 """
